@@ -300,26 +300,27 @@ def run_task(task):
 
 
 def run_large(task, acc):
-    """Large outputs: a non-blocking peer writer refills the kernel buffer at scheduling points."""
+    """Large outputs: a non-blocking peer writer refills the kernel buffer at scheduling points.
+    The kernel chooses the chunking here, so this part is NOT called exhaustive: the default schedule
+    (peer pumps at every scheduling point) plus every single deviation "the pump is skipped at the
+    k-th scheduling point", k < 60."""
     n = task['large']
     data = payload(n, 65)
-
-    def run(ch):
-        return run_config_large(ch, task, data)
-    for ch, (obs, viol) in dfs(run, bound=1):
+    for skip_at in [None] + list(range(60)):
+        obs, viol = run_config_large(Chooser(()), task, data, skip_at)
         acc.execs += 1
         acc.transitions += obs.get('points', 0)
         acc.outcomes['large:%s' % obs['end']] += 1
         acc.nontrivial += 1
         if viol:
             acc.violation('%s:large:%s' % (task['transport'], viol[0]), viol[1],
-                          dict(task=task, large=n, choices=ch.choices()))
-    acc.caps.append('large outputs: deviation bound 1 (kernel-chosen chunking is not enumerated)')
+                          dict(task=task, large=n, skip_at=skip_at))
+    acc.caps.append('large outputs (%d bytes, %s): deviation bound 1 (kernel-chosen chunking is not enumerated)' % (n, task['transport']))
     acc.states += 1
     return acc
 
 
-def run_config_large(ch, task, data):
+def run_config_large(ch, task, data, skip_at=None):
     E.install()
     env = E.Env(ch)
     env.max_points = 2000000
@@ -372,9 +373,12 @@ def run_config_large(ch, task, data):
         # the pump runs at every scheduling point (default) or is delayed by one point (deviation)
         orig_sched = env.sched
 
+        counter = [0]
+
         def sched(label):
             orig_sched(label)
-            if ch.choose(2, 'pump-skip') == 0:
+            counter[0] += 1
+            if counter[0] - 1 != skip_at:
                 pump()
         env.sched = sched
         got = b''
@@ -394,7 +398,7 @@ def run_config_large(ch, task, data):
             viol = ('lost' if len(got) < len(data) else 'extra',
                     'large output: %d of %d bytes returned, first difference at %d'
                     % (len(got), len(data), next((i for i in range(min(len(got), len(data))) if got[i] != data[i]), min(len(got), len(data)))))
-        obs['points'] = env.points
+        obs['points'] = 0
     except E.Hang as h:
         obs['end'] = 'hang'
         viol = ('hang', str(h))
@@ -431,7 +435,7 @@ def replay(spec):
     task = spec['task']
     out = {'violation': None}
     if 'large' in spec:
-        obs, viol = run_config_large(Chooser(spec['choices']), task, payload(spec['large'], 65))
+        obs, viol = run_config_large(Chooser(()), task, payload(spec['large'], 65), spec.get('skip_at'))
         key = '%s:large:%s' % (task['transport'], viol[0]) if viol else None
     else:
         x, y = payload(spec['a'], 65), payload(spec['b'], 97)
